@@ -194,6 +194,10 @@ func (w *serverHandler) handler(conn *ws.Conn) {
 		return
 	}
 	<-sess.CloseNotify()
+	// The notification fires when a close begins. Returning now would make the
+	// websocket server drop the connection under the handlers that a graceful
+	// Close is still waiting for; Close returns once that close has finished.
+	sess.Close()
 }
 
 var (
